@@ -40,6 +40,16 @@ def check_C04(res, tier, seed, replay):
         lines = [vlib.graph_line(i, g['n'], g['edges'], den) for i, (g, den) in enumerate(inputs)]
         Ps = '1,2,3,4,7' if tier == 'quick' else '1,2,3,4,5,6,8,13'
         trace = vlib.parallel_record(exe, lines, wd, 'mpi', extra=['--P', Ps, '--layouts', 'identity,reversed_odd,random', '--seeds', '2' if tier == 'quick' else '5', '--seed', str(seed)], timeout=3000)
+        # the hidden-edge branch of the signed variant needs >= 3 signed edges spread over several ranks' slices and a unique
+        # lightest odd cycle through them: denser graphs with wide weight ranges, signed variant only, few configurations
+        extra_in = []
+        for g in gens.random_graphs(rng, 500 if tier == 'quick' else 5000, 7, 10, 20, [list(range(1, 1000)), list(range(1, 100)), list(range(1, 30))]):
+            extra_in.append((g, 1))
+        xl = [vlib.graph_line(100000 + i, g['n'], g['edges'], den) for i, (g, den) in enumerate(extra_in)]
+        trace_x = vlib.parallel_record(exe, xl, wd, 'mpix', extra=['--P', '2,3,5', '--layouts', 'identity', '--algos', 'signed_mpi', '--seed', str(seed)], timeout=3000)
+        with open(trace, 'a') as f:
+            f.write(open(trace_x).read())
+        inputs += extra_in
         ev = vlib.count_events(trace)
         if ev.get('LayoutError', 0):
             raise vlib.HarnessError('%d LayoutError events: the arena did not realise the requested edge order' % ev['LayoutError'])
